@@ -342,6 +342,11 @@ func genWebseedCase(s *state) {
 				l = pl - off
 			}
 		}
+		if r.Chance(15) {
+			runOp(s, "g.maybe")
+			runOp(s, "w.dump")
+			continue
+		}
 		if r.Chance(20) {
 			// Hoffman
 			var rs string
